@@ -47,6 +47,12 @@ def derivative_monitors(run):
         kind = 'SE2' if n % 2 == 0 else 'SE3'
         fam = 'odo' if n % 4 < 2 else 'lm'
         p1, p2 = rp(kind), rp(kind)
+        if n % 8 >= 6:
+            # both vertices FAR from the origin and CLOSE to each other (geocentric / UTM-like coordinates, poses metres apart)
+            d = B.DIM[kind]
+            base = np.array([rnd.choice([-1, 1]) * 10 ** rnd.uniform(4, 6.5) for _ in range(d)])
+            p1[:d] = base
+            p2[:d] = base + np.array([rnd.uniform(-10, 10) for _ in range(d)])
         if fam == 'odo':
             v1, v2 = Vertex(1, p1), Vertex(2, p2)
             small = rp(kind)
@@ -55,7 +61,7 @@ def derivative_monitors(run):
             e = EdgeOdometry([1, 2], np.eye(B.CDIM[kind]), z, [v1, v2])
         else:
             P = PoseR2 if kind == 'SE2' else PoseR3
-            v1, v2 = Vertex(1, p1), Vertex(2, P([mag() for _ in range(B.DIM[kind])]))
+            v1, v2 = Vertex(1, p1), Vertex(2, P(np.asarray(p2)[:B.DIM[kind]] if n % 8 >= 6 else [mag() for _ in range(B.DIM[kind])]))
             e = EdgeLandmark([1, 2], np.eye(B.DIM[kind]), P([mag() for _ in range(B.DIM[kind])]), rp(kind), vertices=[v1, v2])
         S = 1.0 + max(float(np.max(np.abs(np.asarray(v.pose)[:B.DIM[kind]]))) for v in (v1, v2))
         try:
